@@ -406,6 +406,8 @@ func runC03(c *Ctx, r *Rec) {
 		r.verdict("D1-bulk-fold", c.fdName(fd), c.pos(fd.Pos()), "visits every association", bad)
 	}
 	r.floor("D1-bulk-fold", 4)
+	// an existing key is replaced in this catalog only: association cells are never shared between catalogs
+	checkCellsNotShared(c, r, "D1-cells-not-shared")
 
 	// ---- D3 loops
 	for _, n := range []*types.Named{cat, cls} {
